@@ -53,6 +53,9 @@ def site(sp):
     return "%s:%d" % (f, l)
 
 
+INT_TY = re.compile(r"^(u8|u16|u32|u64|u128|usize|i8|i16|i32|i64|i128|isize)$")
+
+
 def _opref(o):
     if o.get("k") == "const" and "val" in o:
         return ("c", o["val"])
@@ -333,6 +336,10 @@ class Body:
                     aty = (t.get("argtys") or [""])[0]
                     kind = "Result" if aty.startswith(("std::result::Result<", "core::result::Result<")) else ("Option" if aty.startswith(("std::option::Option<", "core::option::Option<")) else None)
                     eff.append((dl, ("branch", kind, _opref(t["args"][0])) if kind else None, "term"))
+                elif fp.endswith(("convert::From::from", "convert::Into::into")) and not t["dest"].get("p") and dl not in borrowed and len(t["args"]) == 1 \
+                        and INT_TY.match((t.get("argtys") or [""])[0] or "") and INT_TY.match(self.local_ty(dl) or ""):
+                    # lossless integer widening (`usize::from(x)`, `x.into()`): the value is unchanged
+                    eff.append((dl, ("copyval", _opref(t["args"][0])), "term"))
                 elif not t["dest"].get("p") or not any(e["k"] == "deref" for e in t["dest"]["p"]):
                     eff.append((dl, None, "term"))
             elif t["k"] == "drop" and not t["place"].get("p"):
